@@ -112,6 +112,7 @@ impl Uplinks {
             value_uplinks,
             supply_uplinks,
             map_uplinks,
+            write_queue,
             special_queue,
             ..
         } = self;
@@ -124,6 +125,7 @@ impl Uplinks {
                 value_uplinks.remove(lane_id);
                 supply_uplinks.remove(lane_id);
                 map_uplinks.remove(lane_id);
+                write_queue.retain(|(_, id)| id != lane_id);
             }
             special_queue.push_back(action);
             None
